@@ -666,10 +666,14 @@ class _State:
         def f2(x):
             evals.append((x,))
             return ctx.apply('F', [x])
-        cache2 = KA.cache(archive=c.archive)
+        # either a new in-memory cache on the same archive (a later session) or the very same cache object (re-decoration)
+        cache2 = c if cfg.get('second_same') else KA.cache(archive=c.archive)
         g2 = H._decorate(ctx, f2, cache2, self.maxsize)
         st = _State(ctx, cfg, g2, f2, F, evals, self.maxsize, self.props, self.canary)
-        st.lossless = False
+        st.hist, st.box = getattr(self, 'hist', None), getattr(self, 'box', {'inner': 0})
+        st.lossless = bool(cfg.get('second_same')) and self.lossless
+        st.ever = list(self.ever) if cfg.get('second_same') else []
+        st.tracked = False            # the new wrapper has no use records for what is already resident
         return st
 
 
@@ -773,6 +777,8 @@ def plan(prop, tier):
                             add(module=m, algo=a, backend=b, keymap='strflat' if b == 'sql' else 'raw', N=3, ops='mgmt')
                 if prop == 'C02':
                     add(module=m, algo=a, backend='cached_dict', keymap='raw', N=4 if q else 6, second=2 if q else 3, scenario='second')
+                    if a in BOUNDED:
+                        add(module=m, algo=a, backend='cached_dict', keymap='raw', N=4 if q else 6, second=2 if q else 3, second_same=True, scenario='redecorate')
         add(module='std', algo='lru', backend='cached_dict', keymap='raw', N=3, canary=True)
     elif prop == 'C05':
         N = 5 if q else 7
@@ -827,6 +833,8 @@ def plan(prop, tier):
                         for b in PERSISTENT_BACKENDS:
                             add(module=m, algo=a, purge=p, backend=b, keymap='strflat' if b == 'sql' else 'raw', N=3 if q else 4, maxsize=1 if q else 'sym')
                     add(module=m, algo=a, purge=p, backend='cached_dict', N=3 if q else 4, ops='mgmt')
+                    if a in BOUNDED:
+                        add(module=m, algo=a, purge=p, backend='cached_dict', N=4 if q else 6, second=2 if q else 3, second_same=True, scenario='redecorate')
                     # what another process sees (new handle / new sqlite connection), and results an archive cannot encode
                     if m == 'std' or not q:
                         for b in ('file', 'dir', 'sqlfile'):
